@@ -48,10 +48,10 @@ CHECKS = {
          "Expiry alphabet (several orders per seller/batch, expiry = block time, +1 ns, after update / partial fill, gaps of 5 s..1 y): BeginBlock never panics or errors, removes exactly the orders due, refunds exactly their quantities to their sellers, leaves the others byte-identical; no expired order is ever bought.",
          "§7 C12", TRUST + " Block times after the Unix epoch."),
  "C13": ("A", "model_checking", A_TECH + "ghost set of consumed origin txs and contract bindings",
-         "Bridge alphabet (three issuing entry points, replays across entry points/classes/contracts/letter case, allow-list changes, bridge out): no (class,id,source) issues twice, receipts only from allowed chains, a bound contract always mints into its batch, Bridge out cancels exactly and reports the batch's contract in one event per credit.",
+         "Bridge alphabet (three issuing entry points, replays across entry points/classes/contracts/letter case, allow-list changes, bridge out): no (class,id,source) issues twice, receipts only from allowed chains, a bound contract always mints into its batch, Bridge out cancels exactly (the owner's tradable balance drops by the bridged amounts, nothing else of any balance row moves) and reports the batch's contract in one event per credit.",
          "§7 C13", TRUST + " Origin tx identity is the literal (id, source) pair."),
  "C14": ("A+B", "model_checking", A_TECH + "id ghost (consecutive numbering) + referential integrity on every state; plus " + B_TECH + " for formats",
-         "Creation histories with failing creations interleaved from a fresh chain and from a valid genesis with counters at 9/99/999 and three credit types: ids unique, accepted by the chain's validators, parsers recover parents, numbered consecutively by successful creations only, all listed references resolve. Format part: formatted ids and all short strings / edit neighbours against a hand-written recogniser.",
+         "Creation histories with failing creations interleaved from a fresh chain and from a valid genesis with counters at 9/99/999 and three credit types: ids unique, accepted by the chain's validators, parsers recover parents, numbered consecutively by successful creations only, all listed references resolve (order -> market of the order's credit type included); genesis part: the module's own ValidateGenesis must refuse the exported state with one reference redirected to a missing key, for each reference it is known to follow (eight it does not follow are recorded findings). Format part: formatted ids and all short strings / edit neighbours against a hand-written recogniser.",
          "§7 C14", TRUST),
  "C15": ("A+B", "model_checking", B_TECH + " for the conversion functions; plus " + A_TECH + "ghost of the successful data messages per content hash, injected colliding ID hashers, by-hash / by-IRI / conversion queries for a fixed universe of content hashes on every state",
          "Conversion part: all 65536+ values of every numeric field, every hash length 19..65, extension strings, and parser-side edit neighbours / synthetic base58check payloads: round trip identity, injectivity over all valid hashes enumerated, accepted IRIs re-encode identically. On-chain part: over all histories of the data alphabet (9 content hashes incl. two with equal digest bytes and two never used, production and colliding ID hashers) every by-hash and by-IRI query answers with exactly the asked content hash's own record (IRI, hash, first anchor time, attestors, resolvers) or not at all.",
@@ -66,7 +66,7 @@ CHECKS = {
          "Every configuration of the parameter alphabet that a path accepts is followed by CreateClass, basket Create (several offers each), Sell+BuyDirect per allowed denom, Put+Take: operations whose preconditions hold must succeed without panic (also with an explicit zero max fee, and on the basket of a three-letter credit type added through governance), the accepted fee rates are in force (exact fee collected and seller payment), creation fees (up to amounts beyond 64 bits) are debited and burned exactly, underpaid/unfunded creations are rejected, no fee set => nothing charged.",
          "§7 C18", TRUST),
  "C19": ("A+B", "model_checking", B_TECH + " + operation-sequence search for aliasing and history dependence, for types/math; plus " + A_TECH + "exact truncation of coin amounts at the marketplace use sites on every fill",
-         "Arithmetic part: ~500 (thorough ~2000) decimal literals, all ordered pairs x 14 operations against big.Rat; every string over {0,1,5,.,-,+,e} up to length 5 (6) against the reference grammar; operand immutability on the internal apd words; a BFS over operation sequences on a shared pool for big.Int aliasing; a probe set that must be bit-identical after every earlier-operation kind. Use-site part: every successful BuyDirect of the fee-rate x order-history seeds pays the seller trunc(exact proceeds) and collects trunc(exact fees).",
+         "Arithmetic part: ~500 (thorough ~2000) decimal literals, all ordered pairs x 14 operations against big.Rat; every string over {0,1,5,.,-,+,e} up to length 5 (6) against the reference grammar; operand immutability on the internal apd words; a BFS over operation sequences on a shared pool for big.Int aliasing; a probe set that must be bit-identical after every earlier-operation kind. Use-site part (marketplace and basket): every successful BuyDirect of the fee-rate x order-history seeds pays the seller trunc(exact proceeds) and collects trunc(exact fees).",
          "§7 C19", TRUST + " Go math/big is the arithmetic reference."),
  "C20": ("B", "model_checking", "exhaustive product of inputs x environment answers (and an earlier call on the same keeper) executed on the real keeper against recording fakes of the ICA controller and capability keepers",
          "Owners (20- and 32-byte, upper-case spelling, another chain's prefix) x connections (incl. blank-suffixed ids) x message shapes x block times (incl. sub-second) x channel/capability availability x SendTx outcome x delivery (in memory, wire round trip) x cold/warm keeper, through ValidateBasic and the real keeper.SubmitTx: one packet on the owner's own port with exactly the inner message and timeout = block time + 60 s, or no send and an error.",
